@@ -18,7 +18,7 @@ func init() { checks["C07"] = c07 }
 func c07(args []string) {
 	c := chk.New("C07", "exploration", args)
 	c.Build(false)
-	c.Rule("[serial process beside another] a process with Spawn = false whose first task meets a task of another process inside its command, at limit 2: a task that has taken slots and not begun its command for seconds while a member of the group gives up is a slot held idle; (a) mixed-cores contention workloads (max in {2,3,4,6}, multisets of task classes with cores in 1..max; every fourth workload has an additional process with CoresPerTask = 0, in every fifth the commands of one process print 200 kB while they hold their slots) with yields of up to 3 ms at slots.before_lock / slots.deposit / slots.release so that token-by-token acquisitions of different tasks interleave whenever the lock does not prevent it: must terminate (structural hang classifier, never elapsed time); (a1) one task waiting more than 10 s for the only slot; (a3) a streaming-only producer in front of a task that needs every slot, a Concatenator between tasks with a single slot, a FileSplitter in front of tasks that need every slot: must terminate; (a2) the same with outputs of waiting tasks appearing on disk while they wait (written by sibling tasks): must terminate with every slot given back (shadow counter 0) and every task either run or skipped; (b) rendezvous groups (max in {2,3,4,6, NumCPU+2}; thorough also 2*NumCPU+1): k tasks with k*cores <= max and nothing else ready must all be inside their command at the same time (each announces itself and waits for k announcements; completion is the witness; on expiry the hook event log decides: a waiter blocked in the slot acquisition although free >= needed is a violation, anything else inconclusive); (b3) two workflows in one program: a task of X waiting for X's only slot must not keep Y's tasks from Y's free slots (one rendezvous group across both); (d) workloads driven through the exported task API (NewTask, Execute, Done) with a core count per task that differs from the process's CoresPerTask, all tasks started at once and a last task that needs every slot: must terminate with every output finalized; (c) CoresPerTask > max must be refused by the library (exit != 0 with its own message, no command of that process), a Go-runtime deadlock report is not a refusal. distinct_nontrivial = distinct (max, cores multiset, interleaving signature) of contention runs in which >= 2 tasks overlapped their acquisitions' waiting, plus completed rendezvous groups and refusals")
+	c.Rule("[silent stdin] the workflow program's standard input is an open pipe nobody writes to and the tools read their standard input to the end before they start (2-core tasks at limit 2, one-core tasks behind them): a run that stops making progress while a command holds the program's own stdin is a violation; [serial process beside another] a process with Spawn = false whose first task meets a task of another process inside its command, at limit 2: a task that has taken slots and not begun its command for seconds while a member of the group gives up is a slot held idle; (a) mixed-cores contention workloads (max in {2,3,4,6}, multisets of task classes with cores in 1..max; every fourth workload has an additional process with CoresPerTask = 0, in every fifth the commands of one process print 200 kB while they hold their slots) with yields of up to 3 ms at slots.before_lock / slots.deposit / slots.release so that token-by-token acquisitions of different tasks interleave whenever the lock does not prevent it: must terminate (structural hang classifier, never elapsed time); (a1) one task waiting more than 10 s for the only slot; (a3) a streaming-only producer in front of a task that needs every slot, a Concatenator between tasks with a single slot, a FileSplitter in front of tasks that need every slot: must terminate; (a2) the same with outputs of waiting tasks appearing on disk while they wait (written by sibling tasks): must terminate with every slot given back (shadow counter 0) and every task either run or skipped; (b) rendezvous groups (max in {2,3,4,6, NumCPU+2}; thorough also 2*NumCPU+1): k tasks with k*cores <= max and nothing else ready must all be inside their command at the same time (each announces itself and waits for k announcements; completion is the witness; on expiry the hook event log decides: a waiter blocked in the slot acquisition although free >= needed is a violation, anything else inconclusive); (b3) two workflows in one program: a task of X waiting for X's only slot must not keep Y's tasks from Y's free slots (one rendezvous group across both); (d) workloads driven through the exported task API (NewTask, Execute, Done) with a core count per task that differs from the process's CoresPerTask, all tasks started at once and a last task that needs every slot: must terminate with every output finalized; (c) CoresPerTask > max must be refused by the library (exit != 0 with its own message, no command of that process), a Go-runtime deadlock report is not a refusal. distinct_nontrivial = distinct (max, cores multiset, interleaving signature) of contention runs in which >= 2 tasks overlapped their acquisitions' waiting, plus completed rendezvous groups and refusals")
 	c.Assume("head-of-line blocking behind a waiting multi-core task is legal: rendezvous groups are homogeneous and run with nothing else ready", "yields only make legal interleavings frequent (Go is preemptive)")
 	rng := c.Rand("c07")
 	type job struct {
@@ -108,6 +108,23 @@ func c07(args []string) {
 			vproto.TaskKey("X", []vproto.KV{{K: "in", V: "x0.txt"}}, nil, nil):   {"rv": "2:g", "rvto": "8000"},
 		}
 		jobs = append(jobs, &job{s: s, bh: bh, cfg: Cfg{Buf: 128, Procs: []int{2, 4}[r%2]}, kind: "rendezvous", k: 2, cores: 1})
+	}
+	// the workflow program is started from a terminal nobody types on (its standard input is an open, silent pipe) and the
+	// tools take optional input on their standard input: they are given an empty input, finish, and the tasks queued behind
+	// them get their slots
+	for r := 0; r < c.Pick(2, 4); r++ {
+		in, o1 := []spec.PortDecl{{Name: "in"}}, []spec.PortDecl{{Name: "out"}}
+		s := &spec.Spec{Name: fmt.Sprintf("silentstdin%d", r), MaxTasks: 2, Sources: map[string]string{}}
+		src := &spec.Proc{Name: "src", Kind: spec.KFileSource}
+		for k := 0; k < 3; k++ {
+			f := fmt.Sprintf("i%d.txt", k)
+			src.Files = append(src.Files, f)
+			s.Sources[f] = f
+		}
+		s.Procs = append(s.Procs, src, &spec.Proc{Name: "conv", Kind: spec.KCmd, Cores: 2, Cmd: spec.BuildCmd("conv", in, o1, nil, nil, map[string]string{"readstdin": "1"})},
+			&spec.Proc{Name: "sum", Kind: spec.KCmd, Cmd: spec.BuildCmd("sum", in, o1, nil, nil, nil)})
+		s.Conns = append(s.Conns, &spec.Conn{From: "src.out", To: "conv.in"}, &spec.Conn{From: "conv.out", To: "sum.in"})
+		jobs = append(jobs, &job{s: s, cfg: Cfg{Buf: 128, Procs: 2, SoftSec: 8, StdinOpen: true, NoHooks: r%2 == 1}, kind: "silentstdin"})
 	}
 	// tasks of the same process that have already finished: the free slots must be used for the waiting members
 	for _, max := range []int{3, 4, 6} {
@@ -255,6 +272,32 @@ func c07(args []string) {
 		res := execSpec(c, root, j.s, j.cfg, j.bh, false, 0)
 		ti := mon.Index(res.Trace)
 		switch j.kind {
+		case "silentstdin":
+			handed := ""
+			for _, es := range ti.Starts {
+				for _, e := range es {
+					if e.Stdin != "" && e.Stdin == res.StdinPipe {
+						handed = e.Key
+					}
+				}
+			}
+			if res.Hang != "" {
+				if handed != "" {
+					c.Violation("tasks-wait-behind-command-blocked-on-the-workflows-stdin", fmt.Sprintf("the command of %s was given the workflow program's own standard input (%s, an open pipe nobody writes to), blocked on it while holding its slots, and %d of 6 tasks had started when the run was stopped: %s", handed, res.StdinPipe, len(ti.Starts), res.Hang), map[string]interface{}{"spec": j.s, "cfg": j.cfg})
+				} else if strings.HasPrefix(res.Hang, "deadlock") {
+					c.Violation("slots-deadlock", res.Hang+"\n"+res.HangInfo, map[string]interface{}{"spec": j.s, "cfg": j.cfg})
+				} else {
+					c.Inconclusive("silent stdin: " + res.Hang)
+				}
+				return
+			}
+			if res.Exit != 0 || !res.Returned || len(ti.Starts) != 6 {
+				c.Violation("exit-nonzero", fmt.Sprintf("tools reading an empty standard input: exit %d, %d of 6 tasks started: %s", res.Exit, len(ti.Starts), tail(res.Output(), 400)), map[string]interface{}{"spec": j.s, "cfg": j.cfg})
+				return
+			}
+			c.Count("silent_stdin_runs", 1)
+			c.Nontrivial(fmt.Sprintf("silentstdin|%v", j.cfg))
+			return
 		case "oversize":
 			out := res.Output()
 			refused := res.Exit != 0 && !res.Returned && res.Hang == "" // (not judged by the wording of the message)
